@@ -21,11 +21,14 @@ func checkC04(c *Ctx) {
 	r041(c)
 	r042(c)
 	r043(c)
-	r044(c)
+	r044(c, "R04.4 table-is-function-of-services")
 	r045(c)
 	// at most one service per (host, prefix): otherwise which one answers depends on map iteration order (shared with C05)
 	r053(c, "R04.6 one-owner-per-host-and-prefix")
 	rPrefixNormalForm(c, "R04.7 prefix-normal-form")
+	// "the choice depends only on the set of services": with two owners of one pair the answer follows map iteration
+	// order - the ownership check guards every installation (shared with C05)
+	r051(c, "R04.8 check-then-install-atomic")
 }
 
 // fullRangeElem: v is the element of a forward, complete range loop over a
@@ -471,8 +474,7 @@ func r043(c *Ctx) {
 }
 
 // R04.4 history independence.
-func r044(c *Ctx) {
-	const rule = "R04.4 table-is-function-of-services"
+func r044(c *Ctx, rule string) {
 	c.floor(rule, 6)
 	upd := c.method("ServiceMap", "updateRequestServiceMap")
 	svcs := c.field("ServiceMap", "services")
